@@ -175,6 +175,7 @@ type AHdr struct {
 	Vias  []AVia      `json:"vias,omitempty"`
 	NAs   []ANameAddr `json:"nas,omitempty"`  // Route / Record-Route entries, or the single From/To value
 	Seps  []string    `json:"seps,omitempty"` // separators between list entries ("," or ", ")
+	Raw   string      `json:"raw,omitempty"`  // when set, the value text verbatim (malformed values)
 }
 
 func (h AHdr) sep(i int) string {
@@ -185,6 +186,9 @@ func (h AHdr) sep(i int) string {
 }
 
 func (h AHdr) ValueText(bodyLen int) string {
+	if h.Raw != "" {
+		return h.Raw
+	}
 	switch h.Kind {
 	case hVia:
 		var sb strings.Builder
